@@ -335,7 +335,10 @@ def applyStmt (j : J) (op : String) (stmt : Stmt) (outs : List String) : J × Li
       let isCreate := match stmt with | .createTable _ _ => true | _ => false
       ({ j with tainted := taint j table,
                 mustNotExist := if isCreate && (findTable j.sdb table).isNone then table :: j.mustNotExist else j.mustNotExist },
-        [vio j s!"db:valid-statement-refused:{phase j}" s!"got=[{out}] op=[{short}]"])
+        [vio j s!"db:valid-statement-refused:{phase j}" s!"got=[{out}] op=[{short}]"] ++
+        -- "every stored key is found by point lookup from the root" (C11): a DELETE of a row the table
+        -- holds is refused because the lookup does not reach it
+        (if out == "err cellNotFound" then [vio j "db:shape:stored-key-not-found" s!"op=[{short}]"] else []))
   | none =>
     if out == "ok" then (j, [vio j "db:invalid-statement-accepted" s!"op=[{short}]"])
     else
